@@ -14,7 +14,7 @@ out = ["# Seeded changes and which checks catch them", "",
 det = miss = 0
 for m in rows:
     c = m["checks_run"]
-    if "MISSED by" in c and "DETECTED" not in c: miss += 1
+    if ("MISSED by" in c or "reported by no check" in c) and "DETECTED" not in c: miss += 1
     else: det += 1
     out.append("| %s | %s | %s | %s |" % (m["id"], m["breaks_property"], m["needs_to_manifest"].replace("|", "/"), c.replace("|", "/")))
 out += ["", "%d seeded changes kept; %d are reported by at least one registered check, %d by none." % (len(rows), det, miss)]
